@@ -103,4 +103,43 @@ theorem decap_no_fuel (L : Nat) (frames : List Bytes) (st : DecSt) : (decFold L 
         · injection hs with _ h2
           exact gap_fuel_sufficient _ _ _ h2
 
+/-! ### review additions (rev1-C08) -/
+
+/-- [review] joint witness for `PTDP_unpack_progress` (hypothesis `PTDP.unpack t b = (p, .ok rest)`): a PTDP with a
+    3-byte payload followed by two more bytes, decoded into an object in a non-trivial prior state -/
+example : ∃ b p rest, PTDP.unpack { PTDP.fresh with payload := [7], content := 2 } b = (p, .ok rest) ∧
+    p.payload = [1, 2, 3] ∧ rest = [9, 9] ∧ rest.length + 6 ≤ b.length :=
+  ⟨_, _, _, ptdp_unpack_noisy { PTDP.fresh with payload := [1, 2, 3], fragment := 1, content := 4 }
+      { PTDP.fresh with payload := [7], content := 2 } (by simp [PTDP_WF]) 0 0 (by decide) (by decide)
+      wt_zero_le wt_zero_le [9, 9], rfl, rfl, by simp⟩
+
+/-- [review] both error outcomes of `PTDP_unpack_total` occur: fewer than 6 bytes is "remaining data" -/
+example : (PTDP.unpack PTDP.fresh [17, 4, 211]).2 = .error .ptdpRemaining := by
+  rw [ptdp_unpack_short _ _ (by decide)]
+/-- [review] hidden fuel: the model of Python's `bin()` inside `Golay._onesincode` (`Golay.binDigitsAux`) returns its
+    accumulator SILENTLY when the fuel is used up (no `Err.fuel`).  One binary digit is consumed per step, so the fuel
+    `n + 1` that `binDigits` passes always suffices: any larger fuel gives the same digits. -/
+theorem binDigitsAux_fuel (n : Nat) : ∀ f acc, n ≤ f → Golay.binDigitsAux f n acc = Golay.binDigitsAux n n acc := by
+  induction n using Nat.strongRecOn with
+  | _ n ih =>
+    intro f acc hf
+    cases f with
+    | zero =>
+      have : n = 0 := by omega
+      subst this; rfl
+    | succ f =>
+      cases n with
+      | zero => simp [Golay.binDigitsAux]
+      | succ n =>
+        have h2 : (n + 1) / 2 ≤ n := by omega
+        have h1 := ih ((n + 1) / 2) (by omega) f (((n + 1) % 2 == 1) :: acc) (by omega)
+        have h3 := ih ((n + 1) / 2) (by omega) n (((n + 1) % 2 == 1) :: acc) h2
+        simp only [Golay.binDigitsAux, Nat.succ_ne_zero, if_false, h1, h3]
+
+/-- the fuel `binDigits` actually passes (`n + 1`) is on the stable side -/
+theorem binDigits_fuel_sufficient (n f : Nat) (acc : List Bool) (hf : n + 1 ≤ f) :
+    Golay.binDigitsAux f n acc = Golay.binDigitsAux (n + 1) n acc := by
+  rw [binDigitsAux_fuel n f acc (by omega), binDigitsAux_fuel n (n + 1) acc (by omega)]
+
+example : Golay.binDigits 0b101101 = [true, false, true, true, false, true] := by decide
 end Acra.Props.C08
